@@ -795,6 +795,126 @@ def run_generated(run, d, idx, seed, n_cycles):
     judge(run, name, cls, kind, res, case, stable_hash(src.replace(name, 'G')))
 
 
+PARAM_SRC = '''import py4hw
+
+
+class PAcc_{tag}(py4hw.Logic):
+    def __init__(self, parent, name, a, r, step, bias):
+        super().__init__(parent, name)
+        self.a = self.addIn('a', a)
+        self.r = self.addOut('r', r)
+        self.addParameter('STEP', step)
+        self.addParameter('BIAS', bias)
+        self.acc = 0
+
+    def structureName(self):
+        return 'PAcc_{tag}_%d' % self.r.getWidth()
+
+    def clock(self):
+        if (self.a.get() & 1):
+            self.acc = (self.acc + self.getParameterValue('STEP')) & 255
+        self.r.prepare(self.acc + self.getParameterValue('BIAS'))
+
+
+class PScale_{tag}(py4hw.Logic):
+    def __init__(self, parent, name, a, r, step, bias):
+        super().__init__(parent, name)
+        self.a = self.addIn('a', a)
+        self.r = self.addOut('r', r)
+        self.addParameter('STEP', step)
+        self.addParameter('BIAS', bias)
+
+    def structureName(self):
+        return 'PScale_{tag}_%d' % self.r.getWidth()
+
+    def propagate(self):
+        self.r.put(self.a.get() * self.getParameterValue('STEP') + self.getParameterValue('BIAS'))
+
+
+class PStage_{tag}(py4hw.Logic):
+    def __init__(self, parent, name, a, r, step, bias, leaf):
+        super().__init__(parent, name)
+        self.addIn('a', a)
+        self.addOut('r', r)
+        self.addParameter('STEP', step)
+        self.addParameter('BIAS', bias)
+        self.leaf = leaf
+        leaf(self, 'leaf', a, r, self.getParameter('STEP'), self.getParameter('BIAS'))
+
+    def structureName(self):
+        return 'PStage_{tag}_%s_%d' % (self.leaf.__name__, self.outPorts[0].wire.getWidth())
+'''
+
+
+def param_designs(run, d, seed, n, shard):
+    """Behavioural leaves that read module parameters, instantiated directly and below a structural stage that forwards its own
+    parameters, several instances with different values sharing one module name: every instance must behave with its own values."""
+    import py4hw
+    from . import cosim
+    tag = '%d' % os.getpid()
+    name = 'PMods_%s' % tag
+    path = os.path.join(d, name + '.py')
+    with open(path, 'w') as f:
+        f.write(PARAM_SRC.replace('{tag}', tag))
+    spec = importlib.util.spec_from_file_location(name, path)
+    mod = importlib.util.module_from_spec(spec)
+    sys.modules[name] = mod
+    try:
+        spec.loader.exec_module(mod)
+    finally:
+        sys.modules.pop(name, None)
+    leaves = [getattr(mod, 'PAcc_' + tag), getattr(mod, 'PScale_' + tag)]
+    Stage = getattr(mod, 'PStage_' + tag)
+    for i in shard_slice(range(n), shard):
+        rnd = rng(seed, 'c02-param', i)
+        leaf = rnd.choice(leaves)
+        k = rnd.choice([1, 2, 2, 3, 4])
+        vals = [(rnd.choice([1, 2, 3, 7, 100, 1000, 40000]), rnd.choice([0, 1, 5, 300])) for _ in range(k)]
+        if rnd.random() < 0.2:
+            vals = [vals[0]] * k
+        staged = [rnd.random() < 0.6 for _ in range(k)]
+        w = rnd.choice([8, 16, 24])
+        hw = py4hw.HWSystem()
+        D = cosim.Dut.cls('Dut')
+        try:
+            with muted():
+                dut = D(hw, 'dut')
+                a = hw.wire('a', 4)
+                outs = []
+                for j, ((st, bi), stg) in enumerate(zip(vals, staged)):
+                    r = hw.wire('r%d' % j, w)
+                    if stg:
+                        Stage(dut, 's%d' % j, a, r, st, bi, leaf)
+                    else:
+                        leaf(dut, 'l%d' % j, a, r, st, bi)
+                    outs.append(r)
+                cosim.wrap_ports(dut, [a], outs)
+            des = cosim.Design(hw, dut, [a], outs, 'param-%d' % i)
+            vecs = [{'a': rnd.getrandbits(4) if rnd.random() < 0.8 else 0} for _ in range(40)]
+            out = cosim.cosim(des, vecs, leaf is leaves[0])
+        except Exception as e:
+            run.count('param_build_failed')
+            continue
+        run.ev()
+        run.count('param_designs')
+        run.count('param_status_' + out.status)
+        case = dict(workload='param_forward', index=i, leaf=leaf.__name__.split('_')[0], values=vals, staged=staged, width=w)
+        if out.status == 'compared':
+            run.count('programs_compared')
+            run.count('steps_in_domain', out.compared)
+            if len(set(vals)) > 1 and any(staged):
+                run.nt(stable_hash(['param', case['leaf'], vals, staged, w]))
+        if out.mismatch is not None:
+            m = out.mismatch
+            run.violation('behaviour_differs', dict(program_class='param_forward', kind='clock' if leaf is leaves[0] else 'propagate', what='output'),
+                          dict(case, mismatch=m, text=(out.text or '')[:5000]),
+                          what='param-%d [%s, values %s, staged %s]: output %s cycle %s: python %s, verilog %s' % (
+                              i, case['leaf'], vals, staged, m['output'], m['cycle'], m['simulator'], m['verilog']))
+        elif out.status == 'invalid_text':
+            run.violation('emits_invalid_text', dict(program_class='param_forward', kind='', code=(out.detail or '')[:40].split('[')[0]),
+                          dict(case, detail=out.detail, text=(out.text or '')[:5000]), what='param-%d: %s' % (i, out.detail))
+
+
 def run_check(run, tier, seed, shard):
     import py4hw
     quick = tier == 'quick'
@@ -828,6 +948,8 @@ def run_check(run, tier, seed, shard):
                 judge(run, label, 'corpus', 'clock' if seq else 'propagate', res, dict(workload='corpus', label=label, rep=rep), stable_hash([label, rep]))
                 if res.status != 'compared':
                     break
+        # (d) parameters forwarded through shared structural modules
+        param_designs(run, d, seed, 60 if quick else 3000, shard)
         # (b)+(c) generated
         n = 2500 if quick else 200000
         cyc = 32 if quick else 64
